@@ -94,6 +94,7 @@ impl Log {
     }
     /// Called at the beginning of every sampler call (before its own tick).
     pub fn on_sampler_begin(&mut self) {
+        crate::watch::event();
         self.samples_in_call += 1;
         if let Some(sb) = self.sample_budget {
             if self.samples_in_call > sb {
@@ -150,10 +151,12 @@ impl<K: Kit> MonSpace<K> {
 impl<K: Kit> StateSpace for MonSpace<K> {
     type StateType = K::S;
     fn distance(&self, a: &K::S, b: &K::S) -> f64 {
+        crate::watch::event();
         self.log.borrow_mut().n_distance += 1;
         self.inner.distance(a, b)
     }
     fn interpolate(&self, from: &K::S, to: &K::S, t: f64, out: &mut K::S) {
+        crate::watch::event();
         self.log.borrow_mut().n_interpolate += 1;
         self.inner.interpolate(from, to, t, out)
     }
@@ -240,6 +243,7 @@ impl<K: Kit> MonGoal<K> {
 
 impl<K: Kit> Goal<K::S> for MonGoal<K> {
     fn is_satisfied(&self, s: &K::S) -> bool {
+        crate::watch::event();
         let r = self.pure_satisfied(s);
         let mut l = self.log.borrow_mut();
         l.n_goal_sat += 1;
@@ -367,6 +371,7 @@ pub struct MonChecker<K: Kit> {
 }
 impl<K: Kit> StateValidityChecker<K::S> for MonChecker<K> {
     fn is_valid(&self, s: &K::S) -> bool {
+        crate::watch::event();
         let flat = K::flat(s);
         let r = self.eval.valid(s, &flat);
         let mut l = self.log.borrow_mut();
